@@ -25,6 +25,7 @@ package main
 //     at which their length and guard are defined, so that declaration order does not matter.
 
 import (
+	"math/big"
 	"go/constant"
 	"go/types"
 	"strings"
@@ -35,6 +36,7 @@ import (
 func normalizeSummary(S *Store, sum *Summary) {
 	unrollSmallLoops(S, sum)
 	markMonotoneCounters(S, sum)
+	closeWrapCounters(S, sum)
 	forwardParamCopies(S, sum)
 	dropDeadObjects(S, sum)
 	dropZeroInit(S, sum)
@@ -74,6 +76,8 @@ func restrictLoopsCtx(S *Store, r *Region, ctx *Term) {
 		}
 		for _, c := range l.Carried {
 			c.Next = S.RestrictDeep(c.Next, in)
+			// the initial value matters only when the loop is entered
+			c.Init = S.RestrictDeep(c.Init, in)
 		}
 		for _, bi := range l.Body.Items {
 			e, isEv := bi.(*Event)
@@ -753,28 +757,64 @@ func markMonotoneCounters(S *Store, sum *Summary) {
 		d := S.Sub(next, sym)
 		return !DependsOn(d, func(s *Symbol) bool { return s == sym.Sym }) && nonNeg(d)
 	}
+	// positive: starts >= 1 and every step keeps it >= 1 (unchanged, increased, multiplied by a positive constant:
+	// the doubling butterfly length of an FFT)
+	var keepsPos func(next, sym *Term) bool
+	keepsPos = func(next, sym *Term) bool {
+		if next == sym {
+			return true
+		}
+		if next.Op == "ite" {
+			return keepsPos(next.Args[1], sym) && keepsPos(next.Args[2], sym)
+		}
+		if as, cs, off := linParts(next); len(as) == 1 && as[0] == sym && cs[0].Sign() > 0 && off.Sign() >= 0 {
+			return true
+		}
+		if next.Op == "shl" && next.Args[0] == sym && nonNeg(next.Args[1]) {
+			return true
+		}
+		d := S.Sub(next, sym)
+		return !DependsOn(d, func(s *Symbol) bool { return s == sym.Sym }) && nonNeg(d)
+	}
+	mark := func(c *Carried, attr string) {
+		for _, sy := range []*Symbol{c.Sym, c.Fin} {
+			if sy != nil {
+				if sy.Attr == nil {
+					sy.Attr = map[string]*Term{}
+				}
+				sy.Attr[attr] = S.True
+			}
+		}
+		marked = true
+	}
 	for round := 0; round < 3; round++ {
 		sum.Top.AllLoops(func(l *LoopS) {
 			for _, c := range l.Carried {
-				if c.Ty != TInt || c.Sym == nil || c.Next == nil || c.Init == nil || (c.Sym.Attr != nil && c.Sym.Attr["nonneg"] != nil) {
+				if c.Ty != TInt || c.Sym == nil || c.Next == nil || c.Init == nil {
 					continue
 				}
-				if nonNeg(c.Init) && monotone(c.Next, S.SymTerm(c.Sym)) {
-					for _, sy := range []*Symbol{c.Sym, c.Fin} {
-						if sy != nil {
-							if sy.Attr == nil {
-								sy.Attr = map[string]*Term{}
-							}
-							sy.Attr["nonneg"] = S.True
-						}
+				if (c.Sym.Attr == nil || c.Sym.Attr["nonneg"] == nil) && nonNeg(c.Init) && monotone(c.Next, S.SymTerm(c.Sym)) {
+					mark(c, "nonneg")
+				}
+				if (c.Sym.Attr == nil || c.Sym.Attr["pos"] == nil) && isPos(c.Init) && keepsPos(c.Next, S.SymTerm(c.Sym)) {
+					mark(c, "pos")
+					if c.Sym.Attr["nonneg"] == nil {
+						mark(c, "nonneg")
 					}
-					marked = true
 				}
 			}
 		})
 	}
 	if !marked {
-		return
+		late := false
+		sum.Top.AllLoops(func(l *LoopS) {
+			if l.Trip == nil && l.HeadExact {
+				late = true
+			}
+		})
+		if !late {
+			return
+		}
 	}
 	memo := map[*Term]*Term{}
 	f := func(t *Term) *Term { return S.Renorm(t, memo) }
@@ -785,6 +825,70 @@ func markMonotoneCounters(S *Store, sum *Summary) {
 		}
 		if r.Guard != nil {
 			r.Guard = f(r.Guard)
+		}
+	}
+	deriveLateTrips(S, sum)
+}
+
+// deriveLateTrips: a loop whose continuation condition became i < K only through the facts above (a symbolic stride
+// known to be positive divided out: `for o := 0; o < s*step; o += step`) gets its trip count max(K, 0) now; the
+// iteration count symbol that stood for it is replaced everywhere.
+func deriveLateTrips(S *Store, sum *Summary) {
+	sub := map[*Symbol]*Term{}
+	sum.Top.AllLoops(func(l *LoopS) {
+		if l.Trip != nil || !l.HeadExact || l.Cont == nil || l.Iter == nil {
+			return
+		}
+		if l.Cont.Op != "le0" {
+			return
+		}
+		iter := S.SymTerm(l.Iter)
+		atoms, coefs, off := linParts(l.Cont.Args[0])
+		rest := S.linMake(nil, nil, off)
+		var s *big.Int
+		for i, a := range atoms {
+			if a == iter {
+				s = coefs[i]
+			} else {
+				rest = S.Add(rest, S.MulC(a, coefs[i]))
+			}
+		}
+		inLoop := func(sy *Symbol) bool {
+			return (sy.Loop != nil && sy.Loop.inside(l)) || (sy.Ev != nil && sy.Ev.Loop != nil && sy.Ev.Loop.inside(l))
+		}
+		if s == nil || s.Cmp(big.NewInt(1)) != 0 || DependsOn(rest, inLoop) {
+			return
+		}
+		n := S.Sub(S.Int(1), rest)
+		var tr *Term
+		if v, ok := n.IntVal(); ok {
+			if v < 0 {
+				v = 0
+			}
+			tr = S.Int(v)
+		} else {
+			tr = S.Op("max0", TInt, n)
+		}
+		l.Trip, l.Bound = tr, tr
+		if l.final != nil {
+			l.final[l.Iter] = tr
+		}
+		if l.IterEnd != nil {
+			sub[l.IterEnd] = tr
+		}
+	})
+	if len(sub) == 0 {
+		return
+	}
+	memo := map[*Term]*Term{}
+	g := func(t *Term) *Term { return S.Subst(t, sub, memo) }
+	sum.Top.MapTerms(g)
+	for _, r := range sum.Rets {
+		for i := range r.Rets {
+			r.Rets[i] = g(r.Rets[i])
+		}
+		if r.Guard != nil {
+			r.Guard = g(r.Guard)
 		}
 	}
 }
@@ -891,4 +995,92 @@ func fuseAdjacentLoops(S *Store, r *Region) {
 			break
 		}
 	}
+}
+
+// closeWrapCounters: a position advanced by one per iteration and wrapped to 0 on reaching N, whose start lies in [0, N)
+// because it is the counter of an enclosing loop that runs below N (the start (_ % N) and 0 cases are closed by the
+// extractor already), is (start + k) % N in iteration k. The variable disappears from the loop like any induction
+// variable.
+func closeWrapCounters(S *Store, sum *Summary) {
+	var walk func(r *Region, enclosing []*LoopS)
+	walk = func(r *Region, enclosing []*LoopS) {
+		for _, it := range r.Items {
+			l, ok := it.(*LoopS)
+			if !ok {
+				continue
+			}
+			walk(l.Body, append(enclosing, l))
+			if l.Iter == nil {
+				continue
+			}
+			iter := S.SymTerm(l.Iter)
+			inLoop := func(sy *Symbol) bool {
+				return (sy.Loop != nil && sy.Loop.inside(l)) || (sy.Ev != nil && sy.Ev.Loop != nil && sy.Ev.Loop.inside(l))
+			}
+			sub := map[*Symbol]*Term{}
+			for _, c := range l.Carried {
+				if c.Affine || c.Ty != TInt || c.Sym == nil || c.Init == nil || c.Next == nil {
+					continue
+				}
+				cf := wrapClosedFormIn(S, c, iter, inLoop, func(init, N *Term) bool {
+					// init is the counter of an enclosing loop bounded by N
+					if init.K != KSym || init.Sym.Kind != SIter {
+						return false
+					}
+					for _, e := range enclosing {
+						if e.Iter == init.Sym && e.Bound != nil && (e.Bound == N || (e.Bound.Op == "max0" && e.Bound.Args[0] == N)) {
+							return true
+						}
+					}
+					return false
+				})
+				if cf != nil {
+					c.Affine = true
+					c.Step = S.Int(1)
+					sub[c.Sym] = cf
+				}
+			}
+			if len(sub) == 0 {
+				continue
+			}
+			memo := map[*Term]*Term{}
+			f := func(t *Term) *Term { return S.Subst(t, sub, memo) }
+			for _, c := range l.Carried {
+				c.Next = f(c.Next)
+			}
+			if l.Cont != nil {
+				l.Cont = f(l.Cont)
+			}
+			for _, x := range l.Exits {
+				x.Guard = f(x.Guard)
+			}
+			l.Body.MapTerms(f)
+			// values after the loop: the counter at the final iteration count
+			if l.final != nil {
+				fin := map[*Symbol]*Term{}
+				for _, c := range l.Carried {
+					if cf, ok := sub[c.Sym]; ok && c.Fin != nil {
+						end := l.Trip
+						if end == nil && l.IterEnd != nil {
+							end = S.SymTerm(l.IterEnd)
+						}
+						if end != nil {
+							fin[c.Fin] = S.Subst(cf, map[*Symbol]*Term{l.Iter: end}, map[*Term]*Term{})
+						}
+					}
+				}
+				if len(fin) > 0 {
+					m2 := map[*Term]*Term{}
+					g := func(t *Term) *Term { return S.Subst(t, fin, m2) }
+					sum.Top.MapTerms(g)
+					for _, r := range sum.Rets {
+						for i := range r.Rets {
+							r.Rets[i] = g(r.Rets[i])
+						}
+					}
+				}
+			}
+		}
+	}
+	walk(sum.Top, nil)
 }
